@@ -510,6 +510,30 @@ pub fn c07(g: &mut Gen) {
             g.group(lines);
         }
     }
+    // degenerate contents, where "minimal width" and "no padding" are decided by special cases: empty, one item, all zero,
+    // one symbol, one run, one bucket
+    {
+        let mut lines = Vec::new();
+        for (i, vals) in [vec![], vec![0u64], vec![0, 0, 0], vec![0; 100], vec![1], vec![255], vec![0, 1], vec![7; 65]].iter().enumerate() {
+            let n = format!("W{}", i);
+            lines.push(format!("wm {} from u8 {}", n, ws(vals))); lines.push(format!("wm {} ser", n)); lines.push(format!("wm {} doc", n));
+            lines.push(format!("iv I{} from_vec u64 {}", i, ws(vals))); lines.push(format!("iv I{} pack", i)); lines.push(format!("iv I{} ser", i)); lines.push(format!("iv I{} doc", i));
+        }
+        for (i, (len, calls)) in [(0u64, ""), (1, ""), (1, "s0,1"), (64, "s0,64"), (100, "s99,1"), (100, "s0,1 s2,1 s4,1")].iter().enumerate() {
+            let n = format!("R{}", i);
+            lines.push(format!("rl {} build : {} l{}", n, calls, len)); lines.push(format!("rl {} ser", n)); lines.push(format!("rl {} doc", n));
+        }
+        for (i, (n, vals)) in [(0u64, vec![]), (1u64, vec![]), (1, vec![0u64]), (2, vec![0, 1]), (64, vec![63]), (1000, vec![]), (1000, vec![0]), (1 << 20, vec![5])].iter().enumerate() {
+            let nm = format!("S{}", i);
+            lines.push(format!("sp {} build {} 0 {}", nm, n, ws(vals))); lines.push(format!("sp {} ser", nm)); lines.push(format!("sp {} doc", nm));
+        }
+        for (i, bits) in ["", "0", "1", "0000000000000000000000000000000000000000000000000000000000000000", "1111111111111111111111111111111111111111111111111111111111111111"].iter().enumerate() {
+            let nm = format!("B{}", i);
+            if bits.is_empty() { lines.push(format!("bv {} from_bits", nm)); } else { lines.push(format!("bv {} from_bits {}", nm, bits)); }
+            lines.push(format!("bv {} enable rsz", nm)); lines.push(format!("bv {} ser", nm)); lines.push(format!("bv {} doc", nm));
+        }
+        g.group(lines);
+    }
     // structures reached through mutation histories (push / pop / set / resize / pack …): whatever the history, the bytes
     // written must be a file of the document (unused bits zero, minimal word count, announced lengths)
     let nh = if g.thorough { 600 } else { 120 };
